@@ -19,6 +19,7 @@ An entry is a dict
 from __future__ import annotations
 
 import itertools
+import pickle
 
 from vf import gen
 from vf.spec import (
@@ -54,12 +55,29 @@ PROD_DEPTH = 3
 
 
 def producer_histories():
-    """Every sequence over {hash, ==, pickle} of length <= PROD_DEPTH that ends in pickle."""
+    """Every sequence over {hash, ==, pickle} of length <= PROD_DEPTH that ends in pickle,
+    followed by every such sequence over {hash, ==, digest, pickle} that contains `digest`
+    (computing the persistent keys of the object; executed under DIGEST_PROTOCOLS only)."""
     out = []
     for n in range(PROD_DEPTH):
         for pre in itertools.product(PROD_OPS, repeat=n):
             out.append((*pre, "pickle"))
+    for n in range(PROD_DEPTH):
+        for pre in itertools.product((*PROD_OPS[:-1], "digest", "pickle"), repeat=n):
+            if "digest" in pre:
+                out.append((*pre, "pickle"))
     return out
+
+
+# "digest" (= compute the persistent keys; pytools' KeyBuilder leaves a per-instance attribute
+# behind that is not a field) is an expensive operation: histories containing it are run under
+# the default pickle protocol only -- what they probe (non-field instance attributes must not
+# take part in ==, hash and look-ups) does not depend on the byte format
+DIGEST_PROTOCOLS = (pickle.DEFAULT_PROTOCOL,)
+# consumer: which families get the digest histories
+DIGEST_FAMILIES = {"quick": ("single", "extra", "user", "arith"),
+                   "thorough": ("single", "extra", "user", "arith", "nest", "variant")}
+DIGEST_DEPTH = 4
 
 
 CONS_OPS = ("U", "B", "H", "E", "I", "L")
@@ -94,6 +112,39 @@ def cons_step(state, op):
         if sl and "l" not in ins:
             ins = (*ins, "l")
     return (nu, nl, ins)
+
+
+def cons_step_digest(state, op):
+    """cons_step extended by D = compute the persistent key of every existing object that has
+    none yet.  Object state: 0 absent, else (observed, keyed)."""
+    su, sl, ins = state
+    if op == "U":
+        return None if su else ((False, False), sl, ins)
+    if op == "B":
+        return None if sl else (su, (False, False), ins)
+    if not (su or sl):
+        return None
+    if op == "D":
+        if (not su or su[1]) and (not sl or sl[1]):
+            return None
+        return (su and (su[0], True), sl and (sl[0], True), ins)
+    if op == "E":
+        return ((True, su[1]), (True, sl[1]), ins) if (su and sl) else None
+    nu, nl = su and (True, su[1]), sl and (True, sl[1])
+    if op == "I":
+        if su and "u" not in ins:
+            ins = (*ins, "u")
+        if sl and "l" not in ins:
+            ins = (*ins, "l")
+    return (nu, nl, ins)
+
+
+def digest_histories():
+    """The maximal transition histories of the digest-extended graph (explored to DIGEST_DEPTH)
+    that contain D; the others are covered by the plain graph.  -> (histories, n new states)"""
+    states, _, hs = state_graph((*CONS_OPS, "D"), cons_step_digest, DIGEST_DEPTH)
+    keyed = [st for st in states if (st[0] and st[0][1]) or (st[1] and st[1][1])]
+    return [h for h in hs if "D" in h], len(keyed)
 
 
 def compiled_step(state, op):
@@ -329,6 +380,26 @@ def legacy_arity_entries():
     out.append(_entry("nest:CallKw02[2]:LegacyArgs0", "CallKw02[2]:LegacyArgs0", "nest",
                       ("CallWithKwargs", V("f"), T(), ("map", ("k", Z),
                                                        ("j", specs["LegacyArgs0"])))))
+    return out
+
+
+def init_false_entries():
+    """expr_dataclass user nodes with a dataclasses.field(init=False, default=...) whose
+    per-instance value equals / differs from the default, set in __post_init__ or by a factory
+    function (the spec's tag then names the factory; vf.spec.build just calls it)."""
+    sm = ("Sum", T(X, Y))
+    specs = {
+        "InitFalseDerived-odd": (OLD + "InitFalseDerived", sm, C(3)),          # parity 1 != default
+        "InitFalseDerived-even": (OLD + "InitFalseDerived", X, C(4)),          # parity 0 == default
+        "InitFalseFactory": (OLD + "make_init_false_factory", S("n"), C(7)),
+        "InitFalseFactory-default": (OLD + "InitFalseFactory", S("n")),        # serial -1
+        "InitFalseOnly": (OLD + "make_init_false_only", sm),
+        "InitFalseOnly-default": (OLD + "InitFalseOnly",),
+    }
+    out = [_entry(f"initfalse:{k}", k, "user", v) for k, v in specs.items()]
+    out.append(_entry("nest:Sum3:InitFalse", "Sum3:InitFalse", "nest", ("Sum", T(
+        ("Product", T(specs["InitFalseFactory"], specs["InitFalseDerived-odd"])), C(1),
+        specs["InitFalseOnly"]))))
     return out
 
 
@@ -575,7 +646,7 @@ def pool(tier):
     if tier not in _POOLS:
         base = (single_entries() + extra_entries() + arith_entries() + user_entries()
                 + user_flat_entries(tier) + oldstyle_entries() + postinit_entries()
-                + legacy_arity_entries()
+                + legacy_arity_entries() + init_false_entries()
                 + nest_entries(tier)
                 + user_nest_entries(tier))
         allp = base + variant_entries(base) + compiled_entries(tier)
